@@ -348,6 +348,19 @@ theorem prior_ties_only_among_equal_weights (s1 s2 : List ℝ → List Nat) (hp1
     ((s2 (w.map Real.exp))[p]?.map fun i => w.toArray.getD i default) :=
   sorted_position_weight_indep s1 s2 hp1 ha1 hp2 ha2 w p
 
+/-- Refinement: the parent vector of the model of `ResamplingWithPrior::resample` (index sort with unspecified
+    tie-breaking, temporary particle set, inner `Resampling::resample`, concatenation) is the one of the
+    specification `rwpSpecParents`, which is written on weight values alone: sort the log-weights, drop the
+    `⌊ratio·N⌋` lowest, normalise, select systematically, offset, prepend `⌊ratio·N⌋` times `-1`. -/
+theorem prior_refines_sort_split_resample (sortIdx : List ℝ → List Nat) (hp : SortPerm sortIdx) (ha : SortAsc sortIdx)
+    (init : PSet π ℝ → PSet π ℝ) (ratio : ℝ) (cor : PSet π ℝ) (u1 : ℝ) (hc : cor.logw.length = cor.parts.length) :
+    (resampleWithPrior (fun x => ⌊x⌋₊) sortIdx init ratio cor u1).2 = rwpSpecParents (fun x => ⌊x⌋₊) ratio cor.logw u1 ∧
+    rwpSpecParents (fun x => ⌊x⌋₊) ratio cor.logw u1 =
+      List.replicate ⌊(cor.logw.length : ℝ) * ratio⌋₊ (-1) ++
+        (resampleIdx ((normalizeLog ((cor.logw.mergeSort (fun a b => decide (a ≤ b))).drop ⌊(cor.logw.length : ℝ) * ratio⌋₊)).map Real.exp) u1).map
+          (fun (p : Nat) => (p : Int) + (⌊(cor.logw.length : ℝ) * ratio⌋₊ : Int)) :=
+  ⟨rwp_refines_spec (fun x => ⌊x⌋₊) sortIdx hp ha init ratio cor u1 hc, rfl⟩
+
 /-- the two contracts on `sort_indices` are satisfiable together: a merge sort of the indices by weight -/
 theorem prior_sort_contract_satisfiable : SortPerm mergeSortIdx ∧ SortAsc mergeSortIdx :=
   ⟨mergeSortIdx_perm, mergeSortIdx_asc⟩
